@@ -120,24 +120,28 @@ func ManageModules() error {
 }
 
 func buildEnabledTree() {
-	// reset marked dependencies
+	// collect the modules that are needed as a dependency of an enabled module
+	needed := make(map[*Module]struct{})
 	for _, m := range modules {
-		m.enabledAsDependency.UnSet()
+		if m.enabled.IsSet() {
+			m.collectDependencies(needed)
+		}
 	}
 	verifPoint("mgmt.treereset", nil)
 
-	// mark dependencies
+	// Update the markers. A module that stays a dependency is never unmarked
+	// in between, as OnlineSoon() is read concurrently while the module runs.
 	for _, m := range modules {
-		if m.enabled.IsSet() {
-			m.markDependencies()
-		}
+		_, ok := needed[m]
+		m.enabledAsDependency.SetTo(ok)
 	}
 }
 
-func (m *Module) markDependencies() {
+func (m *Module) collectDependencies(needed map[*Module]struct{}) {
 	for _, dep := range m.depModules {
-		if dep.enabledAsDependency.SetToIf(false, true) {
-			dep.markDependencies()
+		if _, ok := needed[dep]; !ok {
+			needed[dep] = struct{}{}
+			dep.collectDependencies(needed)
 		}
 	}
 }
